@@ -87,6 +87,18 @@ def cases(tier, seed):
                        'nmax': 40},
                 'n_tuples': int(r.choice([12, 20, 30, 2, 3, 5])),
                 'seed': int(r.randint(1000))})
+  # training sets with thousands of distinct points (default bounds are
+  # percentiles over all of them)
+  for i in range(2 if q else 12):
+    r = rng_for('c11-large', seed, i)
+    out.append({'est': 'ITML', 'mode': 'default', 'scale': 1.0,
+                'params': {'prior': ['identity', 'covariance'][i % 2],
+                           'gamma': 1.0, 'max_iter': 3, 'tol': 1e-3},
+                'ds': {'seed': int(r.randint(2**31 - 1)), 'd': 3,
+                       'classes': 3, 'variant': 'plain', 'nmax': 2600,
+                       'nmin': 2400},
+                'n_tuples': 2600,
+                'seed': int(r.randint(1000))})
   return out
 
 
@@ -97,7 +109,8 @@ def required(tier):
           'C11.stationarity-M': n * 2 // 3, 'C11.stationarity-slack': n,
           'C11.primal-feasible': n // 6, 'C11.complementary-slackness': n // 6,
           'C11.satisfied-prior-returned': 3 if q else 40,
-          'C11.prior-is-documented': n}
+          'C11.prior-is-documented': n,
+          'C11.default-bounds-documented': n // 6}
 
 
 def run_case(spec, j):
@@ -177,6 +190,18 @@ def run_case(spec, j):
             1e-9 * max(np.abs(M0).max(), 1e-300) *
             max(1.0, w0.max() / w0.min() * 1e-3), det)
   bounds = np.asarray(est.bounds_, dtype=float)
+  if 'bounds' not in kwargs:
+    # documented default: 5th and 95th percentile of the Euclidean distances
+    # between the distinct points of the pairs (brute force over all pairs
+    # of points)
+    P = pts
+    G = (P ** 2).sum(1)[:, None] + (P ** 2).sum(1)[None, :] - 2 * P.dot(P.T)
+    iu = np.triu_indices(len(P), k=1)
+    dd = np.sqrt(np.maximum(G[iu], 0.0))
+    want = np.percentile(dd, (5, 95))
+    j.close('C11.default-bounds-documented', bounds, want,
+            1e-7 * np.abs(want) + 1e-9 * np.abs(P).max(),
+            dict(det, n_points=len(P)))
   gamma = p['gamma']
   frames = [fr for fr in _cap['frames']]
   if _cap['code'] is None or len(frames) != 1 or frames[0][1]:
